@@ -7,7 +7,7 @@ All theorems are about `Exetera.FilterIndex.*` — the model the correspondence 
 (`filterBy`, `gather`, `sortPerm`, `mapCols`). An `.ok` result of a kernel means: every subscript and slice of both
 passes stayed inside its array and the buffers allocated from pass 1 were exactly filled.
 
-Vocabulary: `offsets es` / `es.flatten` is how an indexed string field stores the entries `es`; `Encodes p c` says the
+Vocabulary: `offsetsF es` / `es.flatten` is how an indexed string field stores the entries `es`; `Encodes p c` says the
 payload `p` stores the column `c`; `Holds fr cols` says the frame `fr` holds the columns `cols` (names, order, metadata,
 content); `mapCols g cols` applies ONE row operation `g` to every column.
 -/
@@ -19,11 +19,11 @@ open Exetera Exetera.FilterIndex Exetera.Spec
 /-- `apply_filter_to_index_values`: for a filter with one flag per entry the two passes return exactly the encoding of
     the selected entries, in order — for the code as found and as repaired (the fix changes nothing on valid input). -/
 theorem filter_indexed_eq (v : Variant) (es : List (List Nat)) (flt : List Bool) (h : flt.length = es.length) :
-    applyFilterToIndexValues v flt (offsets es) es.flatten =
-      .ok (offsets (filterBy flt es), (filterBy flt es).flatten) :=
+    applyFilterToIndexValues v flt (offsetsF es) es.flatten =
+      .ok (offsetsF (filterBy flt es), (filterBy flt es).flatten) :=
   filter_kernel_eq v es flt h
 
-example : applyFilterToIndexValues .repaired [true, false, true, true] (offsets [[97], [], [99, 99, 99], [100, 195, 169]])
+example : applyFilterToIndexValues .repaired [true, false, true, true] (offsetsF [[97], [], [99, 99, 99], [100, 195, 169]])
     [97, 99, 99, 99, 100, 195, 169] = .ok ([0, 1, 4, 7], [97, 99, 99, 99, 100, 195, 169]) := by rfl
 
 /-- with the fix D8, ANY other filter length is rejected with IndexError before anything is read -/
@@ -39,16 +39,16 @@ example : applyFilterToIndexValues .repaired [true, false] [0, 1, 1, 4, 7] [97, 
     destination entry `j` is source entry `idx[j]` -/
 theorem index_indexed_eq (v : Variant) (es : List (List Nat)) (idx : List Int) (rows : List (List Nat))
     (h : gather es idx = some rows) :
-    applyIndicesToIndexValues v idx (offsets es) es.flatten = .ok (offsets rows, rows.flatten) :=
+    applyIndicesToIndexValues v idx (offsetsF es) es.flatten = .ok (offsetsF rows, rows.flatten) :=
   index_kernel_eq v es idx rows h
 
 example : gather [[97], [], [99, 99]] [2, -3, 1, 2] = some [[99, 99], [97], [], [99, 99]] := by decide
-example : applyIndicesToIndexValues .repaired [2, -3, 1, 2] (offsets [[97], [], [99, 99]]) [97, 99, 99] =
+example : applyIndicesToIndexValues .repaired [2, -3, 1, 2] (offsetsF [[97], [], [99, 99]]) [97, 99, 99] =
     .ok ([0, 2, 3, 3, 5], [99, 99, 97, 99, 99]) := by rfl
 
 /-- with the fix NC09b, a subscript outside `-n ≤ i < n` is rejected with IndexError during pass 1 -/
 theorem index_indexed_out_of_range (es : List (List Nat)) (idx : List Int) (h : gather es idx = none) :
-    ∃ site, applyIndicesToIndexValues .repaired idx (offsets es) es.flatten = .error (.oob site) :=
+    ∃ site, applyIndicesToIndexValues .repaired idx (offsetsF es) es.flatten = .error (.oob site) :=
   index_kernel_err es idx h
 
 example : gather [[97], [], [99, 99]] [0, 3] = none := by decide
